@@ -12,7 +12,7 @@ for d in sorted(glob.glob(os.path.join(V, "seeded", "C*"))):
     m = json.load(open(mp))
     ver = m.get("verification", {})
     hist = m.get("verification_history", [])
-    first = (hist[0].get("checks") if hist else None) or ver.get("checks", {})
+    first = (m.get("first_evaluation") or {}).get("checks") or (hist[0].get("checks") if hist else None) or ver.get("checks", {})
     now = ver.get("checks", {})
 
     def verdict(ch):
